@@ -273,7 +273,7 @@ SAFE_BUILTINS = {
     "hex": hex, "all": all, "any": any, "bool": bool, "dict": dict, "tuple": tuple, "sorted": sorted, "min": min,
     "max": max, "sum": sum, "bytes": bytes, "bytearray": bytearray, "chr": chr, "ord": ord, "zip": zip,
     "reversed": reversed, "abs": abs, "repr": repr, "map": map, "set": set, "frozenset": frozenset, "float": float,
-    "divmod": divmod, "filter": filter, "iter": iter, "next": next,
+    "divmod": divmod, "filter": filter, "iter": iter, "next": next, "format": format, "round": round,
 }
 BUILTIN_TYPES = {"int": int, "str": str, "bytes": bytes, "bool": bool, "list": list, "dict": dict, "tuple": tuple,
                  "type": type, "float": float, "bytearray": bytearray, "object": object, "set": set}
@@ -290,7 +290,7 @@ SAFE_METHODS = {
     frozenset: set(),
     range: {"index", "count"},
 }
-SYM_METHODS = {"isdigit", "lower", "upper", "encode", "ljust", "rjust", "startswith", "endswith", "strip", "replace", "split", "join"}
+SYM_METHODS = {"isdigit", "lower", "upper", "encode", "ljust", "rjust", "startswith", "endswith", "strip", "replace", "split", "join", "count", "rfind", "find"}
 BINOPS = {
     ast.Add: sym.add, ast.Sub: sym.sub, ast.Mult: sym.mul, ast.FloorDiv: sym.floordiv, ast.Mod: sym.mod,
     ast.Pow: sym.pow_, ast.LShift: sym.shl, ast.RShift: sym.shr, ast.BitAnd: sym.band, ast.BitOr: sym.bor,
@@ -567,6 +567,13 @@ class Interp:
         self.mod_loading.add(name)
         try:
             self.exec_block(mod.tree.body, env, mod)
+        except Raised as r:
+            # an exception at import time would fail every run (and the pinned tests): the interpreter is missing something
+            self.mod_env.pop(name, None)
+            raise Unsupported(f"module {name} does not fold: {r.exc.name} {getattr(r.exc, 'args', '')} at line {getattr(getattr(r.exc, 'node', None), 'lineno', '?')}") from None
+        except BaseException:
+            self.mod_env.pop(name, None)      # never keep a half-initialised module
+            raise
         finally:
             self.mod_loading.discard(name)
         return env
@@ -893,6 +900,9 @@ class Interp:
         if name in ("isinstance", "issubclass", "hasattr", "getattr", "setattr", "super", "print", "callable", "type", "open",
                     "__builtins__", "NotImplemented", "id", "hash"):
             return Ext("builtins." + name)
+        import builtins as _b
+        if hasattr(_b, name):
+            raise Unsupported(f"builtin {name} is not modelled")
         raise Raised(ExcVal("NameError", args=(name,)))
 
     def store_name(self, name, v, env):
@@ -979,6 +989,10 @@ class Interp:
             raise Unsupported(f"iteration over symbolic {it!r}")
         if isinstance(it, (list, tuple, str, bytes, bytearray, range, dict, set, frozenset)):
             return it
+        if isinstance(it, SymBytes):
+            if is_sym(it.value):
+                raise Unsupported("iteration over symbolic bytes")
+            return it.value
         if isinstance(it, Rec):
             r = self.call_method(it, "__iter__", [])
             return self.iterate(r)
@@ -1351,10 +1365,17 @@ class Interp:
         for typ, names in SAFE_METHODS.items():
             if isinstance(obj, typ) and name in names:
                 return ("method", obj, name)
+        if isinstance(obj, _re.Pattern) and name in ("match", "fullmatch", "search"):
+            return PyFn(lambda I_, a, k, obj=obj, name=name: (sym.var(f"match:{obj.pattern}", "obj") if I_.choose(("regexmatch", "re." + name, obj.pattern, a[0])) else None)
+                        if any(is_sym(x) for x in a) else getattr(obj, name)(*a), "Pattern." + name)
+        if isinstance(obj, _re.Match) and name in ("end", "start", "group", "groups", "span"):
+            return ("method", obj, name)
         if isinstance(obj, _re.Pattern) and name in ("match", "pattern", "flags", "fullmatch", "search"):
             return ("method", obj, name) if name in ("match", "fullmatch", "search") else getattr(obj, name)
         if hasattr(obj, "__class__") and type(obj).__name__ == "defaultdict" and name in SAFE_METHODS[dict]:
             return ("method", obj, name)
+        if hasattr(obj, name) and not isinstance(obj, (Rec, ClassVal, Closure)):
+            raise Unsupported(f"{type(obj).__name__}.{name} is not modelled")
         raise Raised(ExcVal("AttributeError", args=(f"{type(obj).__name__}.{name}",)))
 
     def e_JoinedStr(self, e, env, mod):
@@ -1558,6 +1579,10 @@ class Interp:
     def call_safe_builtin(self, f, args, kwargs):
         if any(isinstance(a, tuple) and len(a) == 2 and a[0] == "*" for a in args):
             raise Unsupported("star-args of symbolic sequence into builtin")
+        if any(isinstance(a, SymBytes) for a in args):
+            args = [a.value if isinstance(a, SymBytes) else a for a in args]
+            if f in (bytes, bytearray) and len(args) == 1:
+                return args[0] if f is bytes else SymBytes(args[0])
         if f is len:
             x = args[0]
             if isinstance(x, SymBytes):
@@ -1581,6 +1606,11 @@ class Interp:
                 return sym.op("str", x)
             if isinstance(x, (ClassVal, Closure, BuiltinType, Ext, NewTypeVal)):
                 return f"<{getattr(x, 'name', x)}>"
+        if f is format:
+            if any(is_sym(a) for a in args):
+                return sym.op("format", *args)
+            if isinstance(args[0], (Rec, ClassVal, Closure)):
+                raise Unsupported("format() of a record")
         if f is sum and args and is_sym(args[0]):
             return sym.op("sum", args[0])
         if f is sum and args and not is_sym(args[0]):
@@ -1599,6 +1629,8 @@ class Interp:
                 return self.truth(args[0])
             return sym.op(f.__name__, args[0])
         if f in (bytes, bytearray) and args and is_sym(args[0]):
+            if sym.kind(args[0]) in ("int", "bool"):
+                return sym.rep(b"\x00", args[0])       # bytes(n): n zero bytes
             return sym.op("bytesof", args[0])
         if f in (list, tuple) and args and is_sym(args[0]):
             return args[0]
@@ -1729,6 +1761,19 @@ class Interp:
             if ok:
                 return True
             return self.choose(("isdigit", obj))
+        if name in ("count", "rfind", "find") and args:
+            # s[a:b].count(x) == s.count(x, a, b)   (for find/rfind only with a == 0, where indexes agree)
+            base, lo, hi = obj, 0, None
+            if obj[0] == "op" and obj[1] == "slice" and obj[5] is None:
+                base, lo, hi = obj[2], (obj[3] if obj[3] is not None else 0), obj[4]
+                if name != "count" and not (not is_sym(lo) and lo == 0):
+                    base, lo, hi = obj, 0, None
+            if len(args) > 1:
+                if not (not is_sym(lo) and lo == 0 and hi is None):
+                    return sym.op("call", sym.op("attr", obj, name), *args)
+                lo = args[1]
+                hi = args[2] if len(args) > 2 else None
+            return sym.op(name, base, args[0], lo, hi)
         if name in ("lower", "upper"):
             if obj[0] == "op" and obj[1] in ("lower", "upper"):
                 return sym.op(name, obj[2])
@@ -1817,8 +1862,17 @@ class Interp:
                 return sym.pack(*flat)
             except _struct.error as ex:
                 raise Raised(ExcVal("struct.error", args=(str(ex),))) from None
+        if d == "builtins.int.from_bytes":
+            order = args[1] if len(args) > 1 else kwargs.get("byteorder", "big")
+            if kwargs.get("signed"):
+                raise Unsupported("signed from_bytes")
+            if is_sym(args[0]):
+                return _from_bytes(args[0], order)
+            return int.from_bytes(args[0], order)
         if d == "struct.unpack":
             if any(is_sym(a) for a in args):
+                if args[0] in ("<H", ">H", "<I", ">I", "<B", "B"):
+                    return (_from_bytes(args[1], "little" if args[0][0] in "<B" else "big"),)
                 return sym.op("unpack", *args)
             return _struct.unpack(*args)
         if d == "struct.calcsize":
@@ -2085,6 +2139,13 @@ def _walk_local(fn):
         if isinstance(n, FUNC_TYPES + (ast.ClassDef,)):
             continue
         stack.extend(ast.iter_child_nodes(n))
+
+
+def _from_bytes(x, order):
+    # little-endian: trailing zero padding does not change the value
+    while order == "little" and is_sym(x) and x[:2] == ("op", "ljustb") and len(x) == 5 and x[4] == b"\x00":
+        x = x[2]
+    return sym.op("from_bytes", x, order)
 
 
 class _Wrapped:
